@@ -136,7 +136,7 @@ theorem cmrNode_pruneNode' (S : List (Nat × Bool)) (id : Nat) (jc : String → 
     have hb : cm' b = cm b := h b (by simp [Node.children])
     simp only [pruneNode]
     cases decide ((id, false) ∈ S) <;> cases decide ((id, true) ∈ S) <;>
-      simp only [cmrNode, ha, hb]
+      simp only [cmrNode, cmrNodeG, ha, hb]
   | _ => rfl
 
 /-- one step of `cmrs` -/
@@ -144,11 +144,21 @@ def cmrStep (jc : String → Option Nat) (acc : Array Nat) (nd : Node) : Option 
   let c ← cmrNode jc (fun i => acc.getD i 0) nd
   pure (acc.push c)
 
+theorem cmrsGo_eq_foldlM (jc : String → Option Nat) :
+    ∀ (l : List Node) (acc : Array Nat), cmrsGo jc l acc = l.foldlM (cmrStep jc) acc
+  | [], _ => rfl
+  | nd :: rest, acc => by
+    have ih := cmrsGo_eq_foldlM jc rest
+    unfold cmrsGo at ih ⊢
+    simp only [cmrsGoG, List.foldlM_cons, cmrStep]
+    cases h : cmrNode jc (fun i => acc.getD i 0) nd with
+    | none => simp [bind, Option.bind]
+    | some c => simp only [bind, Option.bind, pure]; exact ih _
+
 theorem cmrs_eq_foldlM (jc : String → Option Nat) (p : Plan) :
     cmrs jc p = p.toList.foldlM (cmrStep jc) #[] := by
   unfold cmrs
-  rw [Array.foldlM_toList]
-  rfl
+  exact cmrsGo_eq_foldlM jc p.toList #[]
 
 theorem cmrStep_some {jc : String → Option Nat} {acc acc' : Array Nat} {nd : Node}
     (h : cmrStep jc acc nd = some acc') :
